@@ -324,3 +324,19 @@ def union_sigfiles(paths):
         for i in range(0, len(data) - 7, 8):
             s.add(data[i:i + 8])
     return len(s)
+
+
+def pool_map(func, items, procs=None):
+    """multiprocessing map (fork) for generator+judge shards"""
+    import multiprocessing as mp
+    ctx = mp.get_context('fork')
+    with ctx.Pool(procs or NPROC) as p:
+        return p.map(func, items)
+
+
+def feature_hist(feature_sets):
+    h = {}
+    for fs in feature_sets:
+        for f in fs:
+            h[f] = h.get(f, 0) + 1
+    return h
